@@ -67,6 +67,12 @@ class OperatorDict(Mapping):
         return keys, list(values)
 
     def __call__(self, *mvs):
+        if mvs and all(isinstance(mv, TapeRecorder) for mv in mvs):
+            # Called from within a registered function: record the call.
+            keys_out, func = self[tuple(mv.keys() for mv in mvs)]
+            expr = f"{func.__name__}({', '.join(mv.expr for mv in mvs)})"
+            return TapeRecorder(self.algebra, keys=keys_out, expr=expr)
+
         if len(mvs) == 2:
             return self._call_binary(*mvs)
 
